@@ -23,6 +23,35 @@ type c06Case struct {
 	Code   int      `json:"code,omitempty"`
 	Types  []uint16 `json:"types,omitempty"`
 	Filler byte     `json:"filler,omitempty"`
+	// Pre: an encoding of a DIFFERENT attribute into another message that happens first (1 UNKNOWN-ATTRIBUTES,
+	// 2 ERROR-CODE, 3 text, 4 XOR address); the case's bytes must not depend on it.
+	Pre int `json:"pre,omitempty"`
+}
+
+func c06Pre(pre int) {
+	if pre == 0 {
+		return
+	}
+	s := new(stun.Message)
+	s.TransactionID = [12]byte{0xFF, 0xFF, 0xFF, 0xFF, 0xFF, 0xFF, 0xFF, 0xFF, 0xFF, 0xFF, 0xFF, 0xFF}
+	s.WriteHeader()
+	ff := bytes.Repeat([]byte{0xFF}, 763)
+	switch pre {
+	case 1:
+		l := make(stun.UnknownAttributes, 20)
+		for i := range l {
+			l[i] = stun.AttrType(0xFFFF - i)
+		}
+		_ = l.AddTo(s)
+	case 2:
+		_ = stun.ErrorCodeAttribute{Code: 699, Reason: ff}.AddTo(s)
+	case 3:
+		_ = stun.Software(ff).AddTo(s)
+		_ = stun.Username(ff[:513]).AddTo(s)
+	case 4:
+		_ = (&stun.XORMappedAddress{IP: net.IP(ff[:16]), Port: 0xFFFF}).AddTo(s)
+		_ = (&stun.MappedAddress{IP: net.IP(ff[:16]), Port: 0xFFFF}).AddTo(s)
+	}
 }
 
 func tid12(b []byte) (t [12]byte) { copy(t[:], b); return }
@@ -150,6 +179,7 @@ func c06Check1(k c06Case) (string, string) {
 		return c06Reuse(k)
 	}
 	tid := tid12(k.TID)
+	c06Pre(k.Pre)
 	m := new(stun.Message)
 	m.TransactionID = tid
 	m.Type = stun.BindingSuccess
@@ -297,6 +327,43 @@ func c06Check1(k c06Case) (string, string) {
 			}
 			if gerr != nil || !bytes.Equal(got, val0) {
 				return "text-roundtrip", fmt.Sprintf("%v of %d bytes read back as %d bytes err %v", at, k.Len, len(got), gerr)
+			}
+		}
+		// one scratch destination, reset to length 0 between reads (the documented reuse pattern), across two
+		// attributes of one message and then a second message: values right, no decoded message written to
+		{
+			other := []byte("a-different-value-of-another-attribute")
+			ot := uint16(0x0014)
+			if k.Attr == 0x0014 {
+				ot = 0x8022
+			}
+			two := ref.Encode(ref.TypeWord(1, 2), tid, []ref.EncodeAttr{{Type: ot, Value: other}, {Type: k.Attr, Value: val0}})
+			d1, e1 := decodeCopy(two)
+			d2, e2 := decodeCopy(wantRaw)
+			if e1 != nil || e2 != nil {
+				return "text-redecode", fmt.Sprint(e1, e2)
+			}
+			var g stun.TextAttribute
+			if err := g.GetFromAs(d1, stun.AttrType(ot)); err != nil || !bytes.Equal(g, other) {
+				return "text-roundtrip", fmt.Sprintf("generic getter: %q err %v", g, err)
+			}
+			g = g[:0]
+			if err := g.GetFromAs(d1, at); err != nil || !bytes.Equal(g, val0) {
+				return "text-reset-destination", fmt.Sprintf("%v of %d bytes into a reset ([:0]) destination: %d bytes err %v", at, k.Len, len(g), err)
+			}
+			if !bytes.Equal(d1.Raw, two) {
+				return "text-reset-destination", fmt.Sprintf("reading %v (%d bytes) into a reset ([:0]) destination wrote into the decoded message", at, k.Len)
+			}
+			g = g[:0]
+			if err := g.GetFromAs(d2, at); err != nil || !bytes.Equal(g, val0) {
+				return "text-reset-destination", fmt.Sprintf("%v of %d bytes from a second message into a reset destination: %d bytes err %v", at, k.Len, len(g), err)
+			}
+			if !bytes.Equal(d1.Raw, two) || !bytes.Equal(d2.Raw, wantRaw) {
+				return "text-reset-destination", fmt.Sprintf("reading %v (%d bytes) from a second message into a reset destination wrote into a decoded message", at, k.Len)
+			}
+			var f stun.TextAttribute
+			if err := f.GetFromAs(d1, stun.AttrType(ot)); err != nil || !bytes.Equal(f, other) {
+				return "text-reset-destination", fmt.Sprintf("the other attribute now reads %q err %v", f, err)
 			}
 		}
 	case "errcode":
@@ -478,6 +545,28 @@ func init() {
 			for code := 300; code <= 699; code++ {
 				for _, l := range []int{0, 1, 2, 3, 4, 5, 100, 763} {
 					do(c06Case{Kind: "errcode", Code: code, Len: l, TID: tids[2]}, "errcode")
+				}
+			}
+			// the same encoders after an encoding of a different attribute into another message (shared scratch state)
+			for pre := 1; pre <= 4; pre++ {
+				for code := 300; code <= 699; code += 7 {
+					for _, l := range []int{0, 1, 5, 763} {
+						do(c06Case{Kind: "errcode", Code: code, Len: l, TID: tids[2], Pre: pre}, "errcode/after-other")
+					}
+				}
+				for n := 0; n <= 24; n++ {
+					ts := make([]uint16, n)
+					for j := range ts {
+						ts[j] = uint16(0x0014 + j)
+					}
+					do(c06Case{Kind: "unknown", Types: ts, TID: tids[2], Pre: pre}, "unknown/after-other")
+				}
+				for _, l := range []int{0, 1, 3, 4, 100, 513} {
+					do(c06Case{Kind: "text", Attr: 0x0006, Len: l, Filler: 0, TID: tids[2], Pre: pre}, "text/after-other")
+				}
+				for _, ip := range ips {
+					do(c06Case{Kind: "xor", Attr: 0x0020, IP: ip, Port: 0, TID: tids[0], Pre: pre}, "xor/after-other")
+					do(c06Case{Kind: "mapped", Attr: 0x0001, IP: ip, Port: 0, TID: tids[0], Pre: pre}, "mapped/after-other")
 				}
 			}
 			// unknown attributes: every singleton, lists of 0..64 entries
